@@ -311,7 +311,7 @@ pub fn run(tier: Tier) -> i32 {
     if let Some(art) = crate::common::replay_artefact() {
         return crate::common::finish_replay("C14", &art, &|ws| ws.iter().map(|w| confirm_stexp(&*spec, w)).collect());
     }
-    let depth = std::env::var("VERIF_DEPTH").ok().and_then(|s| s.parse().ok()).unwrap_or(if tier.is_thorough() { 8 } else { 6 });
+    let depth = std::env::var("VERIF_DEPTH").ok().and_then(|s| s.parse().ok()).unwrap_or(if tier.is_thorough() { 10 } else { 8 });
     let out = run_stexp(Arc::clone(&spec), depth, crate::common::ncpu(), 1 << 30, if tier.is_thorough() { 1500 } else { 45 });
     st_evidence(&mut run, &out, depth, "guest syscalls pipe() (<= 2 pipes), write(fd, n in {0,1,2,3,5}) of fresh counter bytes, read(fd, n in {0,1,2,4,8}); fd in both ends of both pipes and {0, 1, 5, 1023}; a user hook registered after the built-in handler logs what reaches it; descriptor seam: distinct and forced-colliding answers");
     run.guard("states", out.states >= 200, format!("{} states", out.states));
